@@ -253,6 +253,201 @@ theorem rejection_is_justified (c : Cfg) (f : Field) (h : gate c = some f) : ¬ 
   rw [(gate_ok_iff_inDomain c).2 d] at h
   cases h
 
+/-! ### a rejection names a setting that is really outside the domain -/
+
+/-- what it means for the named setting to be at fault -/
+def Offends (c : Cfg) : Field → Prop
+  | .contentWarnThreshold => F64.inUnit c.warnThreshold = false
+  | .contentWarnAt => warnBelow c.warnAt c.maxLines = false
+  | .ruleWarnThreshold i => ∃ r, c.rules[i]? = some r ∧ thrOk r.warnThreshold = false
+  | .ruleWarnAt i => ∃ r, c.rules[i]? = some r ∧ warnBelow r.warnAt r.maxLines = false
+  | .ruleInheritedWarnAt i => ∃ r, c.rules[i]? = some r ∧ inheritedBelow r.warnAt r.warnThreshold c.warnAt r.maxLines = false
+  | .ruleExpires i => ∃ r, c.rules[i]? = some r ∧ expiresOk r.expires = false
+  | .scannerExclude => c.scannerExcludeOk = false
+  | .contentExclude => c.contentExcludeOk = false
+  | .reportExclude => c.reportExcludeOk = false
+  | .breakdownBy => c.breakdownByOk = false
+  | .trendSince => trendSinceOk c.trendSince = false
+  | .sWarnThreshold => thrOk c.sWarnThreshold = false
+  | .sWarnFilesThreshold => thrOk c.sWarnFilesThreshold = false
+  | .sWarnDirsThreshold => thrOk c.sWarnDirsThreshold = false
+  | .sWarnFilesAtNeg => nonNeg c.sWarnFilesAt = false
+  | .sWarnDirsAtNeg => nonNeg c.sWarnDirsAt = false
+  | .sWarnFilesAtMax => belowMax c.sWarnFilesAt c.sMaxFiles = false
+  | .sWarnDirsAtMax => belowMax c.sWarnDirsAt c.sMaxDirs = false
+  | .srWarnThreshold i => ∃ r, c.srules[i]? = some r ∧ thrOk r.warnThreshold = false
+  | .srWarnFilesThreshold i => ∃ r, c.srules[i]? = some r ∧ thrOk r.warnFilesThreshold = false
+  | .srWarnDirsThreshold i => ∃ r, c.srules[i]? = some r ∧ thrOk r.warnDirsThreshold = false
+  | .srWarnFilesAtNeg i => ∃ r, c.srules[i]? = some r ∧ nonNeg r.warnFilesAt = false
+  | .srWarnDirsAtNeg i => ∃ r, c.srules[i]? = some r ∧ nonNeg r.warnDirsAt = false
+  | .srWarnFilesAtMax i => ∃ r, c.srules[i]? = some r ∧ belowMax r.warnFilesAt r.maxFiles = false
+  | .srWarnDirsAtMax i => ∃ r, c.srules[i]? = some r ∧ belowMax r.warnDirsAt r.maxDirs = false
+  | .srEffFiles i => ∃ r, c.srules[i]? = some r ∧
+      belowMax (r.warnFilesAt <|> c.sWarnFilesAt) (r.maxFiles <|> c.sMaxFiles) = false
+  | .srEffDirs i => ∃ r, c.srules[i]? = some r ∧
+      belowMax (r.warnDirsAt <|> c.sWarnDirsAt) (r.maxDirs <|> c.sMaxDirs) = false
+  | .srExpires i => ∃ r, c.srules[i]? = some r ∧ expiresOk r.expires = false
+  | .rulePattern => ∃ r ∈ c.rules, r.patternOk = false
+  | .sMaxFiles => limitOk c.sMaxFiles = false
+  | .sMaxDirs => limitOk c.sMaxDirs = false
+  | .sMaxDepth => limitOk c.sMaxDepth = false
+  | .srMaxFiles i => ∃ r, c.srules[i]? = some r ∧ limitOk r.maxFiles = false
+  | .srMaxDirs i => ∃ r, c.srules[i]? = some r ∧ limitOk r.maxDirs = false
+  | .srMaxDepth i => ∃ r, c.srules[i]? = some r ∧ limitOk r.maxDepth = false
+  | .sibling i j => ∃ r s, c.srules[i]? = some r ∧ r.siblings[j]? = some s ∧ siblingOk s = false
+  | .mixGlobal => (c.sHasAllow && c.sHasDeny) = true
+  | .mixRule i => ∃ r, c.srules[i]? = some r ∧ (r.hasAllow && r.hasDeny) = true
+  | .structPattern => (∃ r ∈ c.srules, (r.scopeOk && r.patternsOk) = false) ∨ c.sPatternsOk = false
+
+theorem need_some (ok : Bool) (f g : Field) (h : need ok f = some g) : g = f ∧ ok = false := by
+  cases ok <;> simp_all [need]
+
+theorem firstErr_some : ∀ (l : List (Option Field)) (f : Field), firstErr l = some f → some f ∈ l
+  | [], _, h => by simp [firstErr] at h
+  | none :: rest, f, h => by
+    simp only [firstErr] at h
+    exact List.mem_cons_of_mem _ (firstErr_some rest f h)
+  | some g :: rest, f, h => by
+    simp only [firstErr, Option.some.injEq] at h
+    simp [h]
+
+theorem contentRulesErr_some (gw : Option Nat) : ∀ (rs : List ContentRule) (k : Nat) (f : Field),
+    contentRulesErr gw rs k = some f → ∃ j r, rs[j]? = some r ∧ contentRuleErr gw (k + j) r = some f
+  | [], _, _, h => by simp [contentRulesErr] at h
+  | r :: rest, k, f, h => by
+    simp only [contentRulesErr] at h
+    cases hr : contentRuleErr gw k r with
+    | some g => rw [hr] at h; cases h; exact ⟨0, r, by simp, by simpa using hr⟩
+    | none =>
+      rw [hr] at h
+      obtain ⟨j, x, hx, hf⟩ := contentRulesErr_some gw rest (k + 1) f h
+      exact ⟨j + 1, x, by simpa using hx, by rw [← hf]; congr 1; omega⟩
+
+theorem structRulesSemErr_some (c : Cfg) : ∀ (rs : List StructRule) (k : Nat) (f : Field),
+    structRulesSemErr c rs k = some f → ∃ j r, rs[j]? = some r ∧ structRuleSemErr c (k + j) r = some f
+  | [], _, _, h => by simp [structRulesSemErr] at h
+  | r :: rest, k, f, h => by
+    simp only [structRulesSemErr] at h
+    cases hr : structRuleSemErr c k r with
+    | some g => rw [hr] at h; cases h; exact ⟨0, r, by simp, by simpa using hr⟩
+    | none =>
+      rw [hr] at h
+      obtain ⟨j, x, hx, hf⟩ := structRulesSemErr_some c rest (k + 1) f h
+      exact ⟨j + 1, x, by simpa using hx, by rw [← hf]; congr 1; omega⟩
+
+theorem ruleLimitsErr_some : ∀ (rs : List StructRule) (k : Nat) (f : Field),
+    ruleLimitsErr rs k = some f → ∃ j r, rs[j]? = some r ∧
+      firstErr [need (limitOk r.maxFiles) (.srMaxFiles (k + j)), need (limitOk r.maxDirs) (.srMaxDirs (k + j)),
+        need (limitOk r.maxDepth) (.srMaxDepth (k + j))] = some f
+  | [], _, _, h => by simp [ruleLimitsErr] at h
+  | r :: rest, k, f, h => by
+    simp only [ruleLimitsErr] at h
+    cases hr : firstErr [need (limitOk r.maxFiles) (.srMaxFiles k), need (limitOk r.maxDirs) (.srMaxDirs k),
+        need (limitOk r.maxDepth) (.srMaxDepth k)] with
+    | some g => rw [hr] at h; cases h; exact ⟨0, r, by simp, by simpa using hr⟩
+    | none =>
+      rw [hr] at h
+      obtain ⟨j, x, hx, hf⟩ := ruleLimitsErr_some rest (k + 1) f h
+      refine ⟨j + 1, x, by simpa using hx, ?_⟩
+      have e : k + 1 + j = k + (j + 1) := by omega
+      rw [e] at hf; exact hf
+
+theorem siblingsErr_some (i : Nat) : ∀ (ss : List Sibling) (j : Nat) (f : Field),
+    siblingsErr i ss j = some f → ∃ m s, ss[m]? = some s ∧ siblingOk s = false ∧ f = .sibling i (j + m)
+  | [], _, _, h => by simp [siblingsErr] at h
+  | s :: rest, j, f, h => by
+    simp only [siblingsErr] at h
+    cases hs : siblingOk s with
+    | false => simp only [hs, Bool.false_eq_true, if_false, Option.some.injEq] at h; exact ⟨0, s, by simp, hs, h.symm⟩
+    | true =>
+      simp only [hs, if_true] at h
+      obtain ⟨m, x, hx, hok, hf⟩ := siblingsErr_some i rest (j + 1) f h
+      exact ⟨m + 1, x, by simpa using hx, hok, by rw [hf]; congr 1; omega⟩
+
+theorem ruleSiblingsErr_some : ∀ (rs : List StructRule) (k : Nat) (f : Field),
+    ruleSiblingsErr rs k = some f → ∃ j r m s, rs[j]? = some r ∧ r.siblings[m]? = some s ∧
+      siblingOk s = false ∧ f = .sibling (k + j) m
+  | [], _, _, h => by simp [ruleSiblingsErr] at h
+  | r :: rest, k, f, h => by
+    simp only [ruleSiblingsErr] at h
+    cases hr : siblingsErr k r.siblings 0 with
+    | some g =>
+      rw [hr] at h; cases h
+      obtain ⟨m, s, hs, hok, hf⟩ := siblingsErr_some k r.siblings 0 _ hr
+      exact ⟨0, r, m, s, by simp, hs, hok, by simpa using hf⟩
+    | none =>
+      rw [hr] at h
+      obtain ⟨j, x, m, s, hx, hs, hok, hf⟩ := ruleSiblingsErr_some rest (k + 1) f h
+      exact ⟨j + 1, x, m, s, by simpa using hx, hs, hok, by rw [hf]; congr 1; omega⟩
+
+theorem ruleMixErr_some : ∀ (rs : List StructRule) (k : Nat) (f : Field),
+    ruleMixErr rs k = some f → ∃ j r, rs[j]? = some r ∧ (r.hasAllow && r.hasDeny) = true ∧ f = .mixRule (k + j)
+  | [], _, _, h => by simp [ruleMixErr] at h
+  | r :: rest, k, f, h => by
+    simp only [ruleMixErr] at h
+    cases hm : (r.hasAllow && r.hasDeny) with
+    | true => simp only [hm, if_true, Option.some.injEq] at h; exact ⟨0, r, by simp, hm, h.symm⟩
+    | false =>
+      simp only [hm, Bool.false_eq_true, if_false] at h
+      obtain ⟨j, x, hx, hok, hf⟩ := ruleMixErr_some rest (k + 1) f h
+      exact ⟨j + 1, x, by simpa using hx, hok, by rw [hf]; congr 1; omega⟩
+
+/-- **the diagnostic names a setting that is at fault**: whatever field the gate names, that
+    field's own condition fails (for a rule field: of the rule with that index) -/
+theorem rejection_names_offender (c : Cfg) (f : Field) (h : gate c = some f) : Offends c f := by
+  unfold gate at h
+  cases hs : semantics c with
+  | some g =>
+    rw [hs] at h; cases h
+    have hm := firstErr_some _ _ hs
+    simp only [semantics, List.mem_cons, List.mem_nil_iff, or_false] at hm
+    rcases hm with hm | hm | hm | hm | hm | hm | hm | hm | hm | hm | hm | hm | hm | hm | hm | hm
+    all_goals (first
+      | (obtain ⟨rfl, hb⟩ := need_some _ _ _ hm.symm; simpa [Offends] using hb)
+      | skip)
+    · -- content rules
+      obtain ⟨j, r, hr, hf⟩ := contentRulesErr_some c.warnAt c.rules 0 _ hm.symm
+      have hm2 := firstErr_some _ _ hf
+      simp only [contentRuleErr, List.mem_cons, List.mem_nil_iff, or_false, Nat.zero_add] at hm2
+      rcases hm2 with hm2 | hm2 | hm2 | hm2 <;>
+        (obtain ⟨rfl, hb⟩ := need_some _ _ _ hm2.symm; exact ⟨r, hr, hb⟩)
+    · -- structure rules
+      obtain ⟨j, r, hr, hf⟩ := structRulesSemErr_some c c.srules 0 _ hm.symm
+      have hm2 := firstErr_some _ _ hf
+      simp only [structRuleSemErr, List.mem_cons, List.mem_nil_iff, or_false, Nat.zero_add] at hm2
+      rcases hm2 with hm2 | hm2 | hm2 | hm2 | hm2 | hm2 | hm2 | hm2 | hm2 | hm2 <;>
+        (obtain ⟨rfl, hb⟩ := need_some _ _ _ hm2.symm; exact ⟨r, hr, hb⟩)
+  | none =>
+    rw [hs] at h
+    have hm := firstErr_some _ _ h
+    simp only [checkers, List.mem_cons, List.mem_nil_iff, or_false] at hm
+    rcases hm with hm | hm | hm | hm | hm | hm | hm | hm | hm | hm | hm
+    · obtain ⟨rfl, hb⟩ := need_some _ _ _ hm.symm
+      simp only [List.all_eq_false] at hb
+      obtain ⟨r, hr, hp⟩ := hb
+      exact ⟨r, hr, by simpa using hp⟩
+    · obtain ⟨rfl, hb⟩ := need_some _ _ _ hm.symm; exact hb
+    · obtain ⟨rfl, hb⟩ := need_some _ _ _ hm.symm; exact hb
+    · obtain ⟨rfl, hb⟩ := need_some _ _ _ hm.symm; exact hb
+    · obtain ⟨rfl, hb⟩ := need_some _ _ _ hm.symm; exact hb
+    · obtain ⟨j, r, hr, hf⟩ := ruleLimitsErr_some c.srules 0 _ hm.symm
+      have hm2 := firstErr_some _ _ hf
+      simp only [List.mem_cons, List.mem_nil_iff, or_false, Nat.zero_add] at hm2
+      rcases hm2 with hm2 | hm2 | hm2 <;>
+        (obtain ⟨rfl, hb⟩ := need_some _ _ _ hm2.symm; exact ⟨r, hr, hb⟩)
+    · obtain ⟨j, r, m, s, hr, hsb, hok, rfl⟩ := ruleSiblingsErr_some c.srules 0 _ hm.symm
+      exact ⟨r, s, by simpa using hr, hsb, hok⟩
+    · obtain ⟨rfl, hb⟩ := need_some _ _ _ hm.symm
+      simpa [Offends] using hb
+    · obtain ⟨j, r, hr, hmix, rfl⟩ := ruleMixErr_some c.srules 0 _ hm.symm
+      exact ⟨r, by simpa using hr, hmix⟩
+    · obtain ⟨rfl, hb⟩ := need_some _ _ _ hm.symm
+      simp only [List.all_eq_false] at hb
+      obtain ⟨r, hr, hp⟩ := hb
+      exact Or.inl ⟨r, hr, by simpa using hp⟩
+    · obtain ⟨rfl, hb⟩ := need_some _ _ _ hm.symm
+      exact Or.inr hb
+
 /-! ### thresholds: what "within [0, 1]" means on IEEE-754 values -/
 
 /-- the range test rejects NaN, both infinities and every negative number except `-0.0`, and
